@@ -680,14 +680,10 @@ theorem C13_svf_zero_input_process_bounded (s : Filter ℝ) (h : s.Stagnant) (dt
   rw [Filter.process_stagnant s h]
   exact (C13_svf_zero_input_bounded s dt hg (s.ic1eq, s.ic2eq) n).1
 
-/-- full statement aimed at (bounded input, bounded state): if every input frame has
-    `frameSq x ≤ B²` then for every run the integrator energy stays ≤ `C(g,k)·B² + initial energy`
-    with `C` independent of the run length.  Proved here: the one-tick bound
-    `E' ≤ E + (g/k)·|x|²` for every input, and its sum over a run — growth of the energy at most
-    linear in the number of frames (state norm at most like √n), never exponential.
-    Missing for the full statement: a strict contraction factor of the zero-input map in a
-    weighted norm (the plain energy is only non-increasing: it is preserved on `ic1eq = g·ic2eq`). -/
-theorem C13_svf_bounded_input_partial (s : Filter ℝ) (dt : ℝ) (hg : 0 < Filter.g s.cutoff.raw dt)
+/-- **energy gain per tick**: for every input frame `E' ≤ E + (g/k)·|x|²`, and summed over a run
+    with `|x|² ≤ B2`: `E ≤ E₀ + (g/k)·n·B2` (sharper than the uniform bound of
+    `C13_svf_bounded_input_bounded_state` for short runs). -/
+theorem C13_svf_energy_gain_per_tick (s : Filter ℝ) (dt : ℝ) (hg : 0 < Filter.g s.cutoff.raw dt)
     (v : Frame ℝ × Frame ℝ) (xs : List (Frame ℝ)) (B2 : ℝ) (hB : ∀ x ∈ xs, frameSq x ≤ B2) :
     (∀ u x, svfEnergy (Filter.tickV s dt u x).1
         ≤ svfEnergy u + Filter.g s.cutoff.raw dt / s.kRest * frameSq x)
@@ -704,6 +700,62 @@ theorem C13_svf_bounded_input_partial (s : Filter ℝ) (dt : ℝ) (hg : 0 < Filt
   have h2 := sum_frameSq_le xs B2 hB
   have hc : 0 ≤ Filter.g s.cutoff.raw dt / s.kRest := by positivity
   nlinarith
+
+theorem Filter.kRest_le_two (s : Filter ℝ) : s.kRest ≤ 2 := by
+  have := (clamp01_mem s.resonance.raw).1
+  unfold Filter.kRest; linarith
+
+/-- **strict contraction**: the weighted energy `W = Σ_channels ic1eq² + ic2eq² + (k/2)·ic1eq·ic2eq`
+    is positive definite (`½E ≤ W ≤ (3/2)E`) and every tick, for every input frame, gives
+    `W' ≤ (1 − λ)·W + C·|x|²` with the explicit rate `λ = g·k/(6·K) ∈ (0, 1]`,
+    `K = 3(1+gk)² + 3g² + 2`, and gain `C = 3g³k/(4K) + g(16/k + k)`; in particular with zero input
+    `W' ≤ (1 − λ)·W`: geometric decay. -/
+theorem C13_svf_strict_contraction (s : Filter ℝ) (dt : ℝ) (hg : 0 < Filter.g s.cutoff.raw dt) :
+    let g := Filter.g s.cutoff.raw dt
+    let k := s.kRest
+    0 < svfLam g k ∧ svfLam g k ≤ 1 ∧ 0 ≤ svfC g k
+      ∧ (∀ u, 1 / 2 * svfEnergy u ≤ svfW2 k u ∧ svfW2 k u ≤ 3 / 2 * svfEnergy u)
+      ∧ (∀ u x, svfW2 k (Filter.tickV s dt u x).1 ≤ (1 - svfLam g k) * svfW2 k u + svfC g k * frameSq x)
+      ∧ (∀ u, svfW2 k (Filter.tickV s dt u 0).1 ≤ (1 - svfLam g k) * svfW2 k u) := by
+  intro g k
+  have hk := s.kRest_pos
+  have hk2 := s.kRest_le_two
+  have hstep : ∀ u x, svfW2 k (Filter.tickV s dt u x).1 ≤ (1 - svfLam g k) * svfW2 k u + svfC g k * frameSq x := by
+    intro u x
+    rw [Filter.tickV_state]
+    exact svfStep_lyap g k hg hk hk2 u x
+  refine ⟨svfLam_pos g k hg hk, svfLam_le_one g k hg hk, svfC_nonneg g k hg hk,
+    fun u => svfW2_bounds k u hk hk2, hstep, fun u => ?_⟩
+  have h := hstep u 0
+  have e : frameSq (0 : Frame ℝ) = 0 := by
+    show (0 : ℝ) ^ 2 + (0 : ℝ) ^ 2 = 0
+    norm_num
+  rw [e, mul_zero, add_zero] at h
+  exact h
+
+/-- **bounded input, bounded state (BIBO for the integrators)**: if every input frame has
+    `x.left² + x.right² ≤ B2` then for every run, of any length, from any integrator state,
+    `E ≤ 3·E₀ + 2·(C/λ)·B2` — a bound independent of the run length (`E` the integrator energy,
+    `λ`, `C` the explicit constants of `C13_svf_strict_contraction`). -/
+theorem C13_svf_bounded_input_bounded_state (s : Filter ℝ) (dt : ℝ) (hg : 0 < Filter.g s.cutoff.raw dt)
+    (v : Frame ℝ × Frame ℝ) (xs : List (Frame ℝ)) (B2 : ℝ) (hB2 : 0 ≤ B2)
+    (hB : ∀ x ∈ xs, frameSq x ≤ B2) :
+    svfEnergy (runTick (Filter.tickV s dt) v xs).1
+      ≤ 3 * svfEnergy v
+        + 2 * (svfC (Filter.g s.cutoff.raw dt) s.kRest / svfLam (Filter.g s.cutoff.raw dt) s.kRest) * B2 := by
+  obtain ⟨hl0, hl1, hC, hW, hstep, -⟩ := C13_svf_strict_contraction s dt hg
+  set lam := svfLam (Filter.g s.cutoff.raw dt) s.kRest with hlam
+  set C := svfC (Filter.g s.cutoff.raw dt) s.kRest with hCdef
+  have hE0 := svfEnergy_nonneg v
+  have hq : 0 ≤ C / lam * B2 := by positivity
+  have hmul : lam * (C / lam * B2) = C * B2 := by field_simp
+  have hM : C * B2 ≤ lam * (3 / 2 * svfEnergy v + C / lam * B2) := by
+    have : 0 ≤ lam * (3 / 2 * svfEnergy v) := by positivity
+    nlinarith
+  have hfin := runTick_contract (Filter.tickV s dt) (svfW2 s.kRest) lam C B2
+    (3 / 2 * svfEnergy v + C / lam * B2) hl1 hC hM hstep xs hB v (by linarith [(hW v).2])
+  have hlow := (hW (runTick (Filter.tickV s dt) v xs).1).1
+  linarith
 
 /-- non-vacuity: a 1 kHz filter at 48 kHz with resonance 0.5 has `g > 0`, is at rest, and the
     bounded-input premise is met by a concrete signal -/
